@@ -93,8 +93,27 @@ func (g *c16Gen) operand(d int) *Node {
 
 func (g *c16Gen) andOr(d int) *Node {
 	n := 2 + g.r.Intn(5)
+	// bare leaves (variables q0..q11, at most one constant), distinct within the node: with exactly two of them the
+	// node is a two-leaf operator that FastEvaluation marks as fast
+	perm := g.r.Perm(12)
+	bare := 0
+	allBare := g.r.Intn(5) == 0
+	if allBare {
+		n = 2 + g.r.Intn(2)
+	}
 	ch := make([]*Node, n)
+	usedConst := false
 	for i := range ch {
+		if allBare || g.r.Intn(6) == 0 {
+			if !usedConst && g.r.Intn(5) == 0 {
+				usedConst = true
+				ch[i] = Lit(g.r.Intn(2) == 0)
+			} else {
+				ch[i] = Var(fmt.Sprintf("q%d", perm[bare]), TBool)
+				bare++
+			}
+			continue
+		}
 		ch[i] = g.operand(d)
 	}
 	return Op([]string{"and", "or", "&&", "||", "&", "|"}[g.r.Intn(6)], TBool, ch...)
@@ -119,6 +138,18 @@ func tagKey(n *Node) string {
 			}
 		}
 	})
+	if len(tags) == 0 {
+		// an untagged operand (a bare variable or constant): identified by its text, unique within its and/or by construction
+		// (order-insensitive: a nested untagged and/or may itself be reordered)
+		var leaves []string
+		n.Walk(func(x *Node) {
+			if x.IsLeaf() {
+				leaves = append(leaves, x.Prefix())
+			}
+		})
+		sort.Strings(leaves)
+		return "leaf:" + n.Name + ":" + strings.Join(leaves, " ")
+	}
 	sort.Slice(tags, func(i, j int) bool { return tags[i] < tags[j] })
 	s := make([]string, len(tags))
 	for i, t := range tags {
@@ -228,6 +259,11 @@ func c16Costs(r *rand.Rand, w *W) map[string]float64 {
 	for i := 0; i < 8; i++ {
 		if r.Intn(3) == 0 {
 			m[fmt.Sprintf("x%d", i)] = vals[r.Intn(len(vals))]
+		}
+	}
+	for i := 0; i < 12; i++ {
+		if r.Intn(3) == 0 {
+			m[fmt.Sprintf("q%d", i)] = vals[r.Intn(len(vals))]
 		}
 	}
 	for _, o := range []string{">", "<", "=", "+", "*", "in", "cpos", "ci", "not", "and", "or", "if"} {
